@@ -156,3 +156,152 @@ Proof.
   intros Hle H. induction Hle as [|f' _ IH]; [reflexivity|].
   rewrite (proj1 (stable f')); [exact IH| rewrite IH; exact H].
 Qed.
+
+(* ------------------------------------------------------------------ the fuel of parse_tokens suffices *)
+Lemma pbind_enough {A B} (x : pres A) (k : A -> pres B) (P : B -> Prop) :
+  x <> POof ->
+  (forall a, x = POk a -> k a <> POof /\ forall b, k a = POk b -> P b) ->
+  pbind x k <> POof /\ forall b, pbind x k = POk b -> P b.
+Proof.
+  intros Hx Hk. destruct x as [a| |]; cbn.
+  - apply Hk. reflexivity.
+  - split; [discriminate|]. intros b Hb. discriminate.
+  - congruence.
+Qed.
+
+Definition enough_at (f : nat) : Prop :=
+  (forall m ts, (3 * length ts + 1 <= f)%nat ->
+     parse_expr f m ts <> POof /\
+     forall p, parse_expr f m ts = POk p -> (length (snd p) < length ts)%nat) /\
+  (forall m lhs ts, (3 * length ts + 1 <= f)%nat ->
+     cont f m lhs ts <> POof /\
+     forall p, cont f m lhs ts = POk p -> (length (snd p) <= length ts)%nat) /\
+  (forall c ts, (3 * length ts + 3 <= f)%nat ->
+     parse_elems f c ts <> POof /\
+     forall p, parse_elems f c ts = POk p -> (length (snd p) < length ts)%nat) /\
+  (forall c ts, (3 * length ts + 2 <= f)%nat ->
+     elems_loop f c ts <> POof /\
+     forall p, elems_loop f c ts = POk p -> (length (snd p) < length ts)%nat).
+
+Ltac trivial_res :=
+  split; [discriminate | intros ? Hres; try discriminate; inversion Hres; subst; cbn [snd length] in *; lia].
+
+Lemma enough : forall f, enough_at f.
+Proof.
+  induction f as [|f IH].
+  - repeat split; intros; lia.
+  - destruct IH as (IHp & IHc & IHe & IHl).
+    refine (conj _ (conj _ (conj _ _))).
+    + intros m ts Hf. rewrite parse_expr_S.
+      destruct ts as [|t r]; [trivial_res|]. cbn [length] in Hf.
+      assert (Hc : forall lhs r0, (length r0 <= length r)%nat ->
+                 cont f m lhs r0 <> POof /\
+                 forall p, cont f m lhs r0 = POk p -> (length (snd p) < length (t :: r))%nat).
+      { intros lhs r0 Hr0. destruct (IHc m lhs r0) as [H1 H2]; [lia|]. split; [exact H1|].
+        intros p Hp. specialize (H2 p Hp). cbn [length]. lia. }
+      destruct t as [a|n| |op| | | | | | |k]; try trivial_res.
+      * apply Hc; lia.
+      * apply Hc; lia.
+      * destruct (IHp (unary_bp Not) r) as [H1 H2]; [lia|].
+        apply pbind_enough; [exact H1|]. intros [e r'] He. specialize (H2 _ He). cbn [snd] in H2.
+        apply Hc; lia.
+      * destruct op; try trivial_res.
+        destruct (IHp (unary_bp Neg) r) as [H1 H2]; [lia|].
+        apply pbind_enough; [exact H1|]. intros [e r'] He. specialize (H2 _ He). cbn [snd] in H2.
+        apply Hc; lia.
+      * destruct (IHp paren_bp r) as [H1 H2]; [lia|].
+        apply pbind_enough; [exact H1|]. intros [e r'] He. specialize (H2 _ He). cbn [snd] in H2.
+        destruct r' as [|t' r'']; [trivial_res|]. cbn [length] in H2.
+        destruct t'; try trivial_res. apply Hc; lia.
+      * destruct (IHe CBracket r) as [H1 H2]; [lia|].
+        apply pbind_enough; [exact H1|]. intros [es r'] He. specialize (H2 _ He). cbn [snd] in H2.
+        apply Hc; lia.
+    + intros m lhs ts Hf. rewrite cont_S.
+      destruct ts as [|t r]; [trivial_res|]. cbn [length] in Hf.
+      assert (Hc : forall lhs r0, (length r0 <= length r)%nat ->
+                 cont f m lhs r0 <> POof /\
+                 forall p, cont f m lhs r0 = POk p -> (length (snd p) <= length (t :: r))%nat).
+      { intros lhs0 r0 Hr0. destruct (IHc m lhs0 r0) as [H1 H2]; [lia|]. split; [exact H1|].
+        intros p Hp. specialize (H2 p Hp). cbn [length]. lia. }
+      destruct t as [a|n| |op| | | | | | |k]; try trivial_res.
+      * destruct (l_bp op <? m); [trivial_res|].
+        destruct (IHp (r_bp op) r) as [H1 H2]; [lia|].
+        apply pbind_enough; [exact H1|]. intros [e r'] He. specialize (H2 _ He). cbn [snd] in H2.
+        apply Hc; lia.
+      * destruct (IHe CParen r) as [H1 H2]; [lia|].
+        apply pbind_enough; [exact H1|]. intros [es r'] He. specialize (H2 _ He). cbn [snd] in H2.
+        apply Hc; lia.
+      * destruct (IHp index_bp r) as [H1 H2]; [lia|].
+        apply pbind_enough; [exact H1|]. intros [e r'] He. specialize (H2 _ He). cbn [snd] in H2.
+        destruct r' as [|t' r'']; [trivial_res|]. cbn [length] in H2.
+        destruct t'; try trivial_res. apply Hc; lia.
+      * destruct r as [|t' r']; [trivial_res|]. cbn [length] in Hf.
+        destruct t'; try trivial_res.
+        destruct (IHc m (PMember lhs n) r') as [H1 H2]; [lia|]. split; [exact H1|].
+        intros p Hp. specialize (H2 p Hp). cbn [length]. lia.
+    + intros c ts Hf. rewrite parse_elems_S.
+      destruct ts as [|t r]; [trivial_res|].
+      destruct (is_close c t); [trivial_res|].
+      apply IHl. lia.
+    + intros c ts Hf. rewrite elems_loop_S.
+      destruct (IHp (list_bp c) ts) as [H1 H2]; [lia|].
+      apply pbind_enough; [exact H1|]. intros [e r] He. specialize (H2 _ He). cbn [snd] in H2.
+      destruct r as [|t r1]; [trivial_res|]. cbn [length] in H2.
+      destruct t; try (destruct (is_close c _); trivial_res).
+      destruct r1 as [|t2 r2]; [trivial_res|]. cbn [length] in H2.
+      destruct (is_close c t2); [trivial_res|].
+      destruct (IHl c (t2 :: r2)) as [H3 H4]; [cbn [length]; lia|].
+      apply pbind_enough; [exact H3|]. intros [es r3] Hes. specialize (H4 _ Hes).
+      cbn [snd length] in H4. trivial_res.
+Qed.
+
+Lemma enough_fuel m ts : parse_expr (S (3 * length ts)) m ts <> POof.
+Proof. apply (proj1 (enough (S (3 * length ts)))). lia. Qed.
+
+(* whatever some fuel computes, the fuel of parse_tokens computes *)
+Lemma parse_expr_any_fuel f m ts r :
+  parse_expr f m ts = POk r -> parse_expr (S (3 * length ts)) m ts = POk r.
+Proof.
+  intros H. destruct (Nat.le_ge_cases f (S (3 * length ts))) as [Hle|Hge].
+  - eapply mono_parse_expr; eauto.
+  - rewrite <- H. symmetry. apply stable_le; [exact Hge| apply enough_fuel].
+Qed.
+
+(* ------------------------------------------------------------------ facts about the generated table *)
+Lemma table_ok_true : table_ok = true.
+Proof. vm_compute. reflexivity. Qed.
+
+Lemma levels_ok_true : levels_ok = true.
+Proof. vm_compute. reflexivity. Qed.
+
+Lemma in_all_binops op : In op all_binops.
+Proof. destruct op; cbn; tauto. Qed.
+Lemma in_all_unops u : In u all_unops.
+Proof. destruct u; cbn; tauto. Qed.
+
+Record table_facts : Prop := {
+  tf_assoc : forall op, l_bp op < r_bp op;
+  tf_paren : forall op, paren_bp <= l_bp op;
+  tf_elem : forall op, elem_bp <= l_bp op;
+  tf_arg : forall op, arg_bp <= l_bp op;
+  tf_index : forall op, index_bp <= l_bp op;
+  tf_un_l : forall op u, l_bp op < unary_bp u;
+  tf_un_r : forall op u, r_bp op <= unary_bp u;
+  tf_paren_u : forall u, paren_bp <= unary_bp u;
+  tf_elem_u : forall u, elem_bp <= unary_bp u;
+  tf_arg_u : forall u, arg_bp <= unary_bp u;
+  tf_index_u : forall u, index_bp <= unary_bp u;
+  tf_un_pos : forall u, 0 <= unary_bp u;
+  tf_l_pos : forall op, 0 <= l_bp op;
+}.
+
+Lemma the_table : table_facts.
+Proof.
+  constructor; intros; try destruct op; try destruct u; cbv;
+    first [reflexivity | discriminate | (intro; discriminate)].
+Qed.
+
+Lemma post_ctx_gt_un u : unary_bp u < post_ctx.
+Proof. unfold post_ctx. destruct u; lia. Qed.
+Lemma post_ctx_gt_l op : l_bp op < post_ctx.
+Proof. pose proof (tf_un_l the_table op Not). pose proof (post_ctx_gt_un Not). lia. Qed.
